@@ -83,10 +83,14 @@ class ModuleSrc:
                 node = self.funcs[head]
                 for nested in parts[n:]:
                     found = None
+                    want, ordinal = (nested.split("#") + ["1"])[:2]
+                    seen = 0
                     for sub in ast.walk(node):
-                        if isinstance(sub, ast.FunctionDef) and sub.name == nested and sub is not node:
-                            found = sub
-                            break
+                        if isinstance(sub, ast.FunctionDef) and sub.name == want and sub is not node:
+                            seen += 1
+                            if seen == int(ordinal):
+                                found = sub
+                                break
                     if found is None:
                         raise ShapeMismatch("%s::%s: nested function %s not found" % (self.relpath, qualname, nested))
                     node = found
